@@ -179,13 +179,13 @@ class World:
             return {"rows": np.array(r.py_get_result(), dtype=float), "vol": np.array(r.py_get_volume(), dtype=float),
                     "t": np.array(r.py_get_timepoints(), dtype=float), "flags": [int(r.py_get_divided()), int(r.py_get_dead())]}
         kw = {"det": dict(stochastic=False), "sto": dict(stochastic=True), "vol": dict(stochastic=True, volume=1.0),
-              "delay": dict(stochastic=True, delay=True)}[mode]
+              "delay": dict(stochastic=True, delay=True), "dvol": dict(stochastic=True, delay=True, volume=1.5)}[mode]
         if itf is None:
             r = py_simulate_model(self.tp, Model=m, safe=safe, return_dataframe=False, **kw)
         else:
             r = py_simulate_model(self.tp, Interface=itf, return_dataframe=False, **kw)
         out = {"rows": np.array(r.py_get_result(), dtype=float)}
-        if mode == "vol":
+        if mode in ("vol", "dvol"):
             out["vol"] = np.array(r.py_get_volume(), dtype=float)
         return out
 
@@ -412,6 +412,7 @@ def project(m, menu, fam):
         rx.append(e)
     out["rx"] = rx
     out["defs"] = [len(base[17]), len(base[18]), len(base[14]), len(base[15])]   # reaction / rule definitions, update lists
+    out["ulists"] = [[{k: int(v) for k, v in d.items() if k} for d in base[14]], [{k: int(v) for k, v in d.items() if k} for d in base[15]]]
     if vs["initialized"]:
         from bioscrape.simulator import ModelCSimInterface
         try:
@@ -551,6 +552,8 @@ def compare(obs, exp, menu, fam):
                 want = {spn(i): st[i - 1] for i in set(side)}
                 if o[key] != want:
                     bad.append(("update-dictionary", "reaction %d %s: %r, expected %r" % (k, key, o[key], want)))
+                if len(obs["ulists"][0]) == len(exp["rx"]) == len(obs["ulists"][1]) and obs["ulists"][0 if key == "ud" else 1][k] != want:
+                    bad.append(("update-list", "reaction %d %s list entry: %r, expected %r" % (k, key, obs["ulists"][0 if key == "ud" else 1][k], want)))
             _rates_cmp(o["rates"], e["rates"], "rate:%s:r%d" % (T["ptype"], k), bad)
             d = o["delay"]
             if d.get("type") != T["dtype"]:
